@@ -100,9 +100,12 @@ package logdb
 //@ extern github.com/lni/dragonboat/v4/internal/logdb/kv (s IKVStore) IterateValue
 //@ modifies captured(op)
 //@ ghostset gIOFailed := old(gIOFailed) || result != nil
+// GetValue returns the callback's error as it is; the callbacks of this package return the two
+// "nothing saved" sentinels, which are not storage failures (assumption: the store itself never
+// returns them)
 //@ extern github.com/lni/dragonboat/v4/internal/logdb/kv (s IKVStore) GetValue
 //@ modifies captured(op)
-//@ ghostset gIOFailed := old(gIOFailed) || result != nil
+//@ ghostset gIOFailed := old(gIOFailed) || (result != nil && !errIs(result, sentinel("raftio", "ErrNoSavedLog")) && !errIs(result, sentinel("raftio", "ErrNoBootstrapInfo")))
 //@ extern github.com/lni/dragonboat/v4/internal/logdb/kv (s IKVStore) CommitWriteBatch
 //@ ghostset gIOFailed := old(gIOFailed) || result != nil
 //@ ghostset gBatchCommits := old(gBatchCommits) + ite(result == nil, 1, 0)
@@ -120,7 +123,9 @@ package logdb
 //@ extern github.com/lni/dragonboat/v4/internal/logdb/kv (wb IWriteBatch) Clear
 
 //@ func (r *db) listSnapshots [C10]
-//@ trusted iterates the snapshot key range with a decoding callback (closure-heavy; not verified); propagates the store's error
+//@ noframe
+//@ nobounds
+//@ requires r.kvs != nil
 //@ modifies gIOFailed
 //@ ensures gIOFailed && !old(gIOFailed) ==> result1 != nil
 //@ ensures old(gIOFailed) ==> gIOFailed
@@ -343,3 +348,133 @@ package logdb
 //@ loop 1 invariant forall i int :: len(old(ents)) <= i && i < len(ents) ==> ents[i].Index == low + (i - len(old(ents))) && ents[i].Index < high
 //@ loop 2 invariant (gIOFailed ==> old(gIOFailed)) && high <= maxIndex + 1 && high <= old(high) && exp >= low && len(ents) == len(old(ents)) + (exp - low)
 //@ loop 2 invariant forall i int :: len(old(ents)) <= i && i < len(ents) ==> ents[i].Index == low + (i - len(old(ents))) && ents[i].Index < high
+
+// ---------------------------------------------------------------- error flow of the remaining log store operations (C10)
+// a storage error is never turned into success
+//@ func (r *cache) getMaxIndex [C10]
+//@ trusted in-memory cache bookkeeping
+//@ func (r *cache) setMaxIndex [C10]
+//@ trusted in-memory cache bookkeeping
+//@ func (r *cache) setSnapshotIndex [C10]
+//@ trusted in-memory cache bookkeeping
+//@ func (k *Key) SetMaxIndexKey [C10]
+//@ trusted writes the key buffer only
+//@ func (k *Key) SetStateKey [C10]
+//@ trusted writes the key buffer only
+//@ func (k *Key) setBootstrapKey [C10]
+//@ trusted writes the key buffer only
+//@ func (k *Key) setSnapshotKey [C10]
+//@ trusted writes the key buffer only
+//@ func newKey [C10]
+//@ trusted allocates a key buffer
+//@ ensures result != nil
+
+//@ func (r *db) getMaxIndex [C10]
+//@ noframe
+//@ nobounds
+//@ requires r.kvs != nil && r.keys != nil && r.cs != nil
+//@ modifies gIOFailed
+//@ ensures gIOFailed && !old(gIOFailed) ==> result1 != nil && !errIs(result1, sentinel("raftio", "ErrNoSavedLog"))
+
+//@ func (r *db) getState [C10]
+//@ noframe
+//@ nobounds
+//@ requires r.kvs != nil && r.keys != nil
+//@ modifies gIOFailed
+//@ ensures gIOFailed && !old(gIOFailed) ==> result1 != nil
+
+//@ func (r *db) getBootstrapInfo [C10]
+//@ noframe
+//@ nobounds
+//@ requires r.kvs != nil
+//@ modifies gIOFailed
+//@ ensures gIOFailed && !old(gIOFailed) ==> result1 != nil
+
+//@ func (r *db) saveBootstrapInfo [C10]
+//@ noframe
+//@ nobounds
+//@ requires r.kvs != nil
+//@ modifies gIOFailed, gRecBootstrap, gBatchCommits
+//@ ensures gIOFailed && !old(gIOFailed) ==> result != nil
+
+//@ func (r *db) listNodeInfo [C10]
+//@ noframe
+//@ nobounds
+//@ requires r.kvs != nil
+//@ modifies gIOFailed
+//@ ensures gIOFailed && !old(gIOFailed) ==> result1 != nil
+
+//@ func (r *db) getSnapshot [C10]
+//@ noframe
+//@ nobounds
+//@ requires r.kvs != nil && r.cs != nil
+//@ modifies gIOFailed
+//@ ensures gIOFailed && !old(gIOFailed) ==> result1 != nil
+
+//@ iface (em entryManager) getRange
+//@ modifies gIOFailed
+//@ ensures gIOFailed && !old(gIOFailed) ==> result2 != nil
+//@ ensures old(gIOFailed) ==> gIOFailed
+//@ iface (em entryManager) iterate
+//@ modifies gIOFailed
+//@ ensures gIOFailed && !old(gIOFailed) ==> result2 != nil
+//@ ensures old(gIOFailed) ==> gIOFailed
+
+//@ func (r *db) getRange [C10]
+//@ noframe
+//@ nobounds
+//@ requires r.kvs != nil && r.keys != nil && r.cs != nil && r.entries != nil
+//@ modifies gIOFailed
+//@ ensures gIOFailed && !old(gIOFailed) ==> result2 != nil
+
+//@ func (r *db) readRaftState [C10]
+//@ noframe
+//@ nobounds
+//@ requires r.kvs != nil && r.keys != nil && r.cs != nil && r.entries != nil
+//@ modifies gIOFailed
+//@ ensures gIOFailed && !old(gIOFailed) ==> result1 != nil
+
+//@ func (r *db) iterateEntries [C10]
+//@ noframe
+//@ nobounds
+//@ requires r.kvs != nil && r.keys != nil && r.cs != nil && r.entries != nil
+//@ modifies gIOFailed
+//@ ensures gIOFailed && !old(gIOFailed) ==> result2 != nil
+
+//@ func (r *db) removeNodeData [C10]
+//@ noframe
+//@ nobounds
+//@ requires r.kvs != nil && r.keys != nil && r.cs != nil && r.entries != nil
+//@ modifies gIOFailed, gRecSnapshot, gRecBootstrap, gRecState, gRecMaxIndex, gBatchCommits
+//@ ensures gIOFailed && !old(gIOFailed) ==> result != nil
+
+// removal / compaction run the store operation inside a callback handed to the entry manager
+//@ iface (em entryManager) rangedOp
+//@ modifies gIOFailed
+//@ ensures gIOFailed && !old(gIOFailed) ==> result != nil
+//@ func (r *db) removeEntriesTo [C10]
+//@ noframe
+//@ nobounds
+//@ requires r.entries != nil
+//@ modifies gIOFailed
+//@ ensures gIOFailed && !old(gIOFailed) ==> result != nil
+//@ func (r *db) compact [C10]
+//@ noframe
+//@ nobounds
+//@ requires r.entries != nil
+//@ modifies gIOFailed
+//@ ensures gIOFailed && !old(gIOFailed) ==> result != nil
+
+//@ func (pe *plainEntries) getRange [C10]
+//@ noframe
+//@ nobounds
+//@ requires pe.kvs != nil && pe.keys != nil
+//@ modifies gIOFailed
+//@ ensures gIOFailed && !old(gIOFailed) ==> result2 != nil
+
+//@ func (be *batchedEntries) getRange [C10]
+//@ noframe
+//@ nobounds
+//@ requires be.kvs != nil && be.keys != nil
+//@ modifies gIOFailed
+//@ ensures gIOFailed && !old(gIOFailed) ==> result2 != nil
